@@ -9,6 +9,8 @@ git diff > /tmp/confirm_$id.diff
 cmp -s /tmp/confirm_$id.diff $out/patch.diff || echo "note: worktree diff differs from patch.diff"
 echo "== tests with the change"
 CARGO_NET_OFFLINE=true cargo test --workspace --no-fail-fast --offline 2>&1 | grep -E "^test result|FAILED|error(\[|:)" | tr '\n' ';'; echo
+# a build directory left by the sub-agent may hold an expansion of the other tree (seen with R14C19)
+find $out -maxdepth 2 -type d \( -name 'demo_target*' -o -name target -o -name 'demo_work*' \) -exec rm -rf {} + 2>/dev/null
 echo "== demo with the change"; bash $demo $wt >/tmp/confirm_${id}_with.log 2>&1; rc_with=$?; echo "exit $rc_with"
 echo "== demo on /repo (unchanged)"; bash $demo /repo >/tmp/confirm_${id}_without.log 2>&1; rc_without=$?; echo "exit $rc_without"
 if [ $rc_with -ne 0 ] && [ $rc_without -eq 0 ]; then
